@@ -358,12 +358,21 @@ def tseitin_event(f, src, vid=0):
     outcome, pt, _ = timed(H["tseitin"].encode, t, limit=20.0)
     ev["outcome"] = outcome
     if outcome == "ok":
-        th = pt.th
-        ev["hyps"] = [prop(h) for h in th.hyps]
-        ev["concl"] = prop(th.prop)
+        try:
+            th = pt.th
+            ev["hyps"] = [prop(h) for h in th.hyps]
+            ev["concl"] = prop(th.prop)
+        except Exception as e:          # not a proof term with a theorem
+            ev["outcome"] = "raised:" + type(e).__name__
+            ev["key"] = "tseitin:%s" % digest(f)
+            return ev
         o2, cnf, _ = timed(H["tseitin"].convert_cnf, th.prop, limit=20.0)
         if o2 == "ok":
-            ev["cnf"] = [[[str(nm), bool(b)] for nm, b in clause] for clause in cnf]
+            try:
+                ev["cnf"] = [[[str(nm), bool(b)] for nm, b in clause] for clause in cnf]
+            except Exception as e:      # not a list of lists of (name, bool)
+                ev["cnf"] = []
+                ev["outcome"] = "convert_raised:" + type(e).__name__
         else:
             ev["outcome"] = "convert_" + o2
         rpt = H["report"].ProofReport()
@@ -391,8 +400,15 @@ def prove_events(f, src, slog, vid=0):
     if o1 != "ok":
         ev["outcome"] = "encode_" + o1
         return ev
-    cnf_named = H["tseitin"].convert_cnf(pt.prop)
-    cnf, names = lit_ids(cnf_named)
+    o2, cnf_named, _ = timed(H["tseitin"].convert_cnf, pt.prop, limit=20.0)
+    if o2 != "ok":
+        ev["outcome"] = "convert_" + o2
+        return ev
+    try:
+        cnf, names = lit_ids(cnf_named)
+    except Exception as e:      # not a list of lists of (name, bool): nothing to give to the solver
+        ev["outcome"] = "convert_raised:" + type(e).__name__
+        return ev
     sev = solve_event(cnf, names, "tseitin", vid)
     sev["names"] = names
     slog.write(sev)
